@@ -690,7 +690,7 @@ func (u unit) weight() float64 {
 }
 
 // assign spreads the units over n workers: heaviest unit first, each to the worker with the least work so far
-// (deterministic: ties go to the lower scenario / shard / worker number). A worker runs its units heaviest first.
+// (deterministic: ties go to the lower scenario / shard / worker number). A worker runs its units lightest first.
 func assign(n int) [][]unit {
 	us := units()
 	sort.SliceStable(us, func(a, b int) bool { return us[a].weight() > us[b].weight() })
@@ -705,6 +705,11 @@ func assign(n int) [][]unit {
 		}
 		out[w] = append(out[w], u)
 		load[w] += u.weight()
+	}
+	// lightest first: when the budget cuts the run, it cuts the heavy scenarios (which have completed their lower
+	// preemption bounds by then: the search is best-first in the number of preemptions), not the light ones
+	for _, l := range out {
+		sort.SliceStable(l, func(a, b int) bool { return l[a].weight() < l[b].weight() })
 	}
 	return out
 }
